@@ -150,10 +150,6 @@ def parse(text):
             i += 1; continue
         if k != "identifier":
             raise LexError(f"expected a command name, got {k} {text[a:b]!r}", a)
-        if seen_cmd_on_line:
-            raise LexError("expected a newline after a command invocation", a)
-        if comment_before:
-            raise LexError("expected a newline after a bracket comment", a)
         name = text[a:b]
         cline = line
         i += 1
@@ -161,6 +157,11 @@ def parse(text):
             i += 1
         if i >= n or toks[i][0] != "lparen":
             raise LexError(f"expected '(' after command name {name!r}", b)
+        # a complete command that merely shares its line with the previous one / with a bracket comment
+        if seen_cmd_on_line:
+            raise LexError("expected a newline after a command invocation", a)
+        if comment_before:
+            raise LexError("expected a newline after a bracket comment", a)
         depth = 1
         i += 1
         args = []
